@@ -277,6 +277,12 @@ def query_aliases(run, rng):
     for k, q in enumerate(QUERY_ALIAS):
         c = j.case('qa%d' % k, fork=True).model('xta', exprgen.FIXTURE_XTA)
         vs = [q, respell(q, 'kw'), respell(q, 'mix'), respell(q, 'mix')]
+        # block comments between two tokens of the query, on one line and running over line ends (a line end outside a comment ends the query; inside one it is comment text)
+        sp = [m.start() for m in re.finditer(' ', q)]
+        for cm in ('/* c */', '/* the guard,\n   then the target */', '/*\n*/', '/* a\r\n b */'):
+            if sp:
+                i = rng.choice(sp)
+                vs.append(q[:i] + ' ' + cm + ' ' + q[i + 1:])
         for v in vs:
             c.query(v, rt=False)
         c.end()
@@ -291,10 +297,11 @@ def query_aliases(run, rng):
         obs = []
         for i in range(len(vs)):
             cm = c['cmds'][1 + i][2]
-            obs.append((next((l for l in cm if l.startswith('accepted')), ''), sorted(re.sub(r' ctx=.*$', '', l) for l in cm if l.startswith('error')), next((l for l in cm if l.startswith('tree ')), '')))
+            strip = (lambda l: re.sub(r' ctx=.*$', '', l)) if i < 4 else (lambda l: re.sub(r'" ctx=.*$', '', l))          # a comment moves the columns
+            obs.append((next((l for l in cm if l.startswith('accepted')), ''), sorted(strip(l) for l in cm if l.startswith('error')), next((l for l in cm if l.startswith('tree ')), '')))
         for i in range(1, len(vs)):
             n += 1
-            if obs[i] != obs[0]:
+            if obs[i] != obs[0] and (i < 4 or (obs[i][0], obs[i][2]) != (obs[0][0], obs[0][2]) or bool(obs[i][1]) != bool(obs[0][1])):
                 run.fail('the query %r and its respelling %r differ: %s vs %s' % (vs[0], vs[i], obs[0][:2], obs[i][:2]), dict(original=vs[0], rewritten=vs[i], a=obs[0], b=obs[i]), shape='query-alias:' + re.sub(r'[^A-Za-z\[\]<>]+', '_', vs[0])[:30])
                 break
     return n
